@@ -1,8 +1,65 @@
 import SLModel.Drv.Util
+import SLModel.Core.Highlight
 open Lean
 namespace SL.Drv.C21
+open SL.Drv SL.Highlight
 
-/-- stub: no model operations for C21 yet -/
-def handle (_req : Json) : Except String Json := .error "C21: not implemented"
+def spanOf (j : Json) : Except String Span := do
+  let l ← natList j
+  match l with
+  | [s, e] => return (s, e)
+  | _ => throw "span: expected [s,e]"
+
+/-- `find` table: `[[off, s, e], …]`; offsets not listed have no match -/
+def findTable (j : Array Json) : Except String (List (Nat × Span)) :=
+  j.toList.mapM (fun row => do
+    let l ← natList row
+    match l with
+    | [o, s, e] => return (o, (s, e))
+    | _ => throw "find: expected [off,s,e]")
+
+/-- `rematch` table: `[["<fragment hex>", [[s,e],…]], …]` -/
+def rematchTable (j : Array Json) : Except String (List (Bytes × List Span)) :=
+  j.toList.mapM (fun row => do
+    let a ← row.getArr?
+    match a.toList with
+    | [f, sp] =>
+      let fb ← hexToBytes (← f.getStr?)
+      let spans ← (← sp.getArr?).toList.mapM spanOf
+      return (fb, spans)
+    | _ => throw "rematch: expected [hex, spans]")
+
+/-- `{"op":"highlight","text":hex,"find":[[off,s,e]…],"rematch":[[hex,[[s,e]…]]…],"size":n,
+"nfrag":n,"pre":hex,"post":hex,"snap":bool,"has_pattern":bool,"snippet":bool}` →
+`{"fragments":[hex…],"untagged":[hex…],"on_boundary":[bool…],"spans_ok":[bool…]}`.
+With `"snippet":true` the result is `make_snippet` (size 120, one fragment, last element). -/
+def handle (req : Json) : Except String Json := do
+  let op ← getStr req "op"
+  match op with
+  | "highlight" =>
+    let t ← hexToBytes (← getStr req "text")
+    let ft ← findTable (getArrD req "find")
+    let rt ← rematchTable (getArrD req "rematch")
+    let find : Nat → Option Span := fun off => ft.lookup off
+    let rematch : Bytes → List Span := fun f => (rt.lookup f).getD []
+    let snippet := getBoolD req "snippet" false
+    let size0 ← getNat req "size"
+    let nfrag0 ← getNat req "nfrag"
+    let size := if snippet then 120 else size0
+    let nfrag := if snippet then 1 else nfrag0
+    let pre ← hexToBytes (getStrD req "pre" "")
+    let post ← hexToBytes (getStrD req "post" "")
+    let hasPattern := getBoolD req "has_pattern" true
+    let slice := if getBoolD req "snap" false then sliceSnap else sliceCode
+    let frs : List (List Piece) :=
+      if snippet then (makeSnippet slice t hasPattern find rematch).toList
+      else ((fieldHighlights slice t hasPattern find rematch size nfrag).getD [])
+    let vis := if t.isEmpty || !hasPattern then [] else visited find nfrag 0
+    return Json.mkObj [
+      ("fragments", Json.arr (frs.map (fun p => (bytesToHex (render pre post p) : Json))).toArray),
+      ("untagged", Json.arr (frs.map (fun p => (bytesToHex (untag p) : Json))).toArray),
+      ("on_boundary", Json.arr (vis.map (fun m => (windowOnBoundary t m.1 size : Json))).toArray),
+      ("spans_ok", Json.arr (rt.map (fun fs => (spansOk fs.1.length 0 fs.2 : Json))).toArray)]
+  | _ => throw s!"C21: unknown op {op}"
 
 end SL.Drv.C21
